@@ -11,6 +11,7 @@ against the independent codec; SSH-1 CRC-32 is compared with zlib (a checksum is
 tool emits during full audits of the archetype servers is decoded by the fake peer as well.
 """
 import json
+import os
 import random
 import struct
 import zlib
@@ -123,6 +124,7 @@ def run(tier):
                 ck.cov['traces_validated_against_impl'] += 1
     scalar_and_message_legs(ck, rnd, tier)
     framing_leg(ck, tier)
+    proof_leg(ck)
     stream_leg(ck, tier)
     emitted_leg(ck)
     ck.sample({'value': '-0x180000000', 'rfc_bytes': bytes([0, 0, 0, 5, 0xfe, 0x80, 0, 0, 0]).hex()})
@@ -232,6 +234,28 @@ class _Seg:
 
     def close(self):
         pass
+
+
+def proof_leg(ck):
+    """SshFrameProof.tla: the framing arithmetic for EVERY payload length, discharged by the TLA+ proof system (tlapm, SMT back end).
+    TLC checks FrameLaw for 0..MaxPayload and the replay covers 1..4096; the proof removes the bound from the arithmetic."""
+    import shutil
+    import subprocess
+    import tempfile
+    exe = shutil.which('tlapm')
+    if exe is None:
+        ck.notes.append('tlapm not on PATH: the unbounded framing lemma was not re-checked (TLC bound 0..4096 stands)')
+        return
+    tmp = tempfile.mkdtemp(prefix='vtlaps-')
+    try:
+        shutil.copy(os.path.join(common.ROOT, 'spec', 'SshFrameProof.tla'), tmp)
+        p = subprocess.run([exe, 'SshFrameProof.tla'], cwd=tmp, stdout=subprocess.PIPE, stderr=subprocess.STDOUT, text=True, timeout=600)
+        ok = p.returncode == 0 and 'obligation proved' in p.stdout.replace('obligations', 'obligation') and 'failed' not in p.stdout.lower()
+        common.require(ok, 'tlapm did not prove SshFrameProof!FrameLawUnbounded:\n' + p.stdout[-1500:])
+        ck.notes.append('TLAPS: FrameLawUnbounded proved for all n in Nat (%s)' % p.stdout.strip().splitlines()[-1].strip())
+        ck.log('TLAPS: FrameLawUnbounded (every payload length) proved')
+    finally:
+        shutil.rmtree(tmp, ignore_errors=True)
 
 
 def stream_leg(ck, tier):
